@@ -1,6 +1,6 @@
 # C12, second half: wait-for graph bookkeeping (forward and reverse edge maps stay mirror images) and victim choice.
 # exec()'d from c12.py.
-GN = 2 if T == 'quick' else 3
+GN = 3
 T_EDGES = 'parking_lot::lock_api::RwLock<parking_lot::RawRwLock, std::collections::HashMap<u64, std::collections::HashSet<u64>>>'
 
 
